@@ -69,8 +69,8 @@ def C01(tier):
 # --------------------------------------------------------------------------- C04
 def C04(tier):
     c = Check("C04", tier)
-    E = sz(tier, 1 << 20, 1 << 26)
-    samples = sz(tier, 2_000_000, 60_000_000)
+    E = sz(tier, 1 << 22, 1 << 26)
+    samples = sz(tier, 8_000_000, 60_000_000)
     count = per_shard(E + samples)
     p = [E]
     c.spec("format-rel", "rel", "drv_scalar", "c04", count, params=p, env={"VERIF_REPO": core.REPO})
@@ -103,7 +103,7 @@ def C04(tier):
 def C05(tier):
     c = Check("C05", tier)
     E = sz(tier, 1 << 20, 1 << 26)
-    mix = sz(tier, 600_000, 12_000_000)
+    mix = sz(tier, 2_000_000, 12_000_000)
     K = sz(tier, 4096, 16384)
     count = per_shard(E + mix)
     p = [E, K]
@@ -125,7 +125,7 @@ def C05(tier):
 # --------------------------------------------------------------------------- C12
 def C12(tier):
     c = Check("C12", tier)
-    n = sz(tier, 4_000_000, 200_000_000)
+    n = sz(tier, 16_000_000, 200_000_000)
     count = per_shard(n)
     c.spec("add-rel", "rel", "drv_scalar", "c12", count)
     c.spec("add-asan", "asan", "drv_scalar", "c12", count, shards=sz(tier, [0, 1, 2, 3], [0, 1]))
@@ -184,7 +184,7 @@ def C02(tier):
 
 def C03(tier):
     c = Check("C03", tier)
-    n = sz(tier, 30 * 20_000, 30 * 700_000)
+    n = sz(tier, 31 * 40_000, 31 * 700_000)
     count = per_shard(n)
     p = [2000, sz(tier, 3000, 1500), sz(tier, 0, 1)]
     c.spec("bound-asan", "asan", "drv_array", "c03", count, shards=sz(tier, list(range(8)), list(range(8))), params=p)
@@ -218,7 +218,7 @@ def C03(tier):
 
 def C13(tier):
     c = Check("C13", tier)
-    n = sz(tier, 20 * 15_000, 20 * 600_000)
+    n = sz(tier, 20 * 30_000, 20 * 600_000)
     count = per_shard(n)
     c.spec("cap-asan", "asan", "drv_array", "c13", count, shards=sz(tier, list(range(8)), list(range(8))), params=[1000])
     c.spec("cap-asanR", "asanR", "drv_array", "c13", count, shards=[8, 9, 10, 11], params=[1000])
@@ -522,7 +522,7 @@ def _c15_name_divergence(c, ref, other, shard):
 
 def C15(tier):
     c = Check("C15", tier)
-    n = sz(tier, 20_000, 1_000_000)
+    n = sz(tier, 80_000, 1_000_000)
     count = per_shard(n)
     specs = []
     for cfg, worlds, shards in (("rel", range(10), None), ("dbg", range(10), [0, 1]), ("clang", (0, 1, 6, 7, 9), [2, 3]),
@@ -659,7 +659,7 @@ def _resolve_sites(exe, addrs):
 def C18(tier):
     c = Check("C18", tier, level="fault_enumeration")
     variants = 306
-    reps = sz(tier, 3, 30)
+    reps = sz(tier, 5, 30)
     count = per_shard(variants * reps)
     h1 = c.spec("oom-asanR", "asanR", "drv_oom", "c18", count, build_kw=OOM_KW, timeout=3000)
     h2 = c.spec("oom-asan", "asan", "drv_oom", "c18", count, build_kw=OOM_KW, timeout=3000)
